@@ -19,8 +19,8 @@ SPEC = {
                 {'name': 'c09_step_1limit_n2', 'file': EP, 'timeout': 1200, 'bounds': STEP_B, 'asserts': STEP_A},
                 {'name': 'c09_step_2limits_n2_n1', 'file': EP, 'timeout': 1500, 'bounds': STEP_B, 'asserts': STEP_A},
                 {'name': 'c09_live_n2', 'file': EP, 'timeout': 1200, 'bounds': 'n=2, L=2, period 1..20 s', 'asserts': 'a request permitted by the limits returns after exactly one sleep'},
-                {'name': 'c09_step_1limit_n3', 'file': EP, 'tiers': ['thorough'], 'timeout': 3600, 'bounds': STEP_B, 'asserts': STEP_A},
-                {'name': 'c09_step_2limits_n3_n2', 'file': EP, 'tiers': ['thorough'], 'timeout': 3600, 'bounds': STEP_B, 'asserts': STEP_A},
+                {'name': 'c09_step_1limit_n3', 'file': EP, 'timeout': 2400, 'bounds': STEP_B, 'asserts': STEP_A},
+                {'name': 'c09_step_2limits_n3_n2', 'file': EP, 'timeout': 2400, 'bounds': STEP_B, 'asserts': STEP_A},
             ],
         },
         {
